@@ -1,6 +1,10 @@
 #![allow(dead_code)]
 //! verif-check <ID> <quick|thorough>  |  verif-check <ID> --replay <file>
 mod astnorm;
+mod bast;
+mod bastnorm;
+mod gen;
+mod model;
 mod checks;
 mod drive;
 mod expr;
